@@ -489,8 +489,82 @@ func c07whenProbe(c *core.Ctx) {
 	}
 }
 
+// the rows a constrained list selection yields when it is walked entry by entry (First / Next) are the rows its
+// whole read shows
+func c07iterProbe(c *core.Ctx) {
+	y := `module it { namespace "urn:it"; prefix it; revision 2020-01-01;
+  container a { list l { key k; leaf k { type string; } leaf n { type int32; } list in { key i; leaf i { type int32; } } } }
+  list top { key "x y"; leaf x { type string; } leaf y { type int32; } }
+}`
+	m, err := parser.LoadModuleFromString(nil, y)
+	if err != nil {
+		c.Violation(core.Replay{Kind: "harness", Summary: "c07iter module: " + err.Error(), NoInputFound: true})
+		return
+	}
+	doc := `{"a":{"l":[{"k":"r0","n":0,"in":[{"i":1},{"i":2},{"i":3}]},{"k":"r1","n":10},{"k":"r2","n":20,"in":[{"i":7}]},{"k":"r3","n":30},{"k":"r4","n":40}]},"top":[{"x":"p","y":1},{"x":"p","y":2},{"x":"q","y":1}]}`
+	for _, find := range []string{"a/l", "a/l?fc.range=!1-2", "a/l?fc.range=!2-", "a/l?fc.range=!0-0", "a/l?fc.range=!7-9", "a/l?fc.range=!3-1", "a/l?fc.range=!4-4", "a/l?where=n>15", "a/l?where=n<0", "a/l?where=n>5&fc.range=!1-2",
+		"a/l=r0/in?fc.range=!1-1", "a/l=r0/in?where=i>1", "top?fc.range=!1-2", "top?where=y%3D1", "a/l?depth=1", "a/l?content=config"} {
+		var walked, read []string
+		e := safeDo(func() error {
+			src, err := nodeutil.ReadJSON(doc)
+			if err != nil {
+				return err
+			}
+			sel, err := node.NewBrowser(m, src).Root().Find(find)
+			if err != nil || sel == nil {
+				return fmt.Errorf("find: %v", err)
+			}
+			item, err := sel.First()
+			for ; err == nil && item.Selection != nil; item, err = item.Next() {
+				var ks []string
+				for _, k := range item.Key {
+					ks = append(ks, k.String())
+				}
+				walked = append(walked, strings.Join(ks, ","))
+				if len(walked) > 100 {
+					return fmt.Errorf("walk does not end")
+				}
+			}
+			if err != nil {
+				return err
+			}
+			src2, _ := nodeutil.ReadJSON(doc)
+			sel2, err := node.NewBrowser(m, src2).Root().Find(find)
+			if err != nil || sel2 == nil {
+				return fmt.Errorf("find: %v", err)
+			}
+			js, err := nodeutil.WriteJSON(sel2)
+			if err != nil {
+				return err
+			}
+			var v map[string][]map[string]interface{}
+			if err := json.Unmarshal([]byte(js), &v); err != nil {
+				return fmt.Errorf("read is not a list document: %s", js)
+			}
+			for _, rows := range v {
+				for _, row := range rows {
+					var ks []string
+					for _, kn := range sel2.Meta().(*meta.List).KeyMeta() {
+						ks = append(ks, fmt.Sprint(row[kn.Ident()]))
+					}
+					read = append(read, strings.Join(ks, ","))
+				}
+			}
+			return nil
+		})
+		c.Evaluations++
+		c.Count("walk_vs_read", strings.SplitN(strings.SplitN(find+"?plain", "?", 2)[1], "=", 2)[0])
+		c.Distinct("iter " + find)
+		if e != nil || fmt.Sprint(walked) != fmt.Sprint(read) {
+			c.Violation(core.Replay{Kind: "property-failure", Class: "walk-vs-read", Summary: fmt.Sprintf("Find(%q): First/Next visits %v, the read of the same selection shows %v (%v)", find, walked, read, e),
+				Input: map[string]interface{}{"yang": y, "data": doc, "find": find}, Impl: fmt.Sprint(walked), Spec: fmt.Sprint(read)})
+		}
+	}
+}
+
 func C07(c *core.Ctx) {
 	c07whenProbe(c)
+	c07iterProbe(c)
 	c.Rule = "generated schemas (containers, keyed lists nested up to 3 levels, config-false containers/lists/leaves, defaults) × trees (values equal to their default, unset leaves with defaults, lists of 0–4 entries) × targets (module, container, list, list entry) × queries: every parameter alone and random combinations of depth (1–5), content (config/nonconfig/all), fields and fc.xfields (random expressions over the schema: nested paths, alternatives, groups, something after a group, unknown names), with-defaults=trim, fc.range (windows incl. empty, reversed, out of range, on nested lists, several lists, the target list itself), raw and percent-encoded; result (WriteJSON of the constrained selection) compared with the Lean projection model; source store compared before/after; ParsePathExpression compared with the Lean parser on every generated and on malformed expressions; a stream of invalid parameter values must be refused; directed: a module whose ten when conditions all hold against the same module without them, 11 targets × 18 parameter sets (content, with-defaults, depth, fields, fc.xfields, fc.range and combinations). non-trivial = query that removes something but not everything; distinct by (schema, tree, target, query)"
 	c.Assumptions = append(c.Assumptions,
 		"the result is observed through the JSON writer (C15) and decoded by encoding/json; an empty array and an absent list are not distinguished",
@@ -509,7 +583,7 @@ func C07(c *core.Ctx) {
 	}
 	var pends []pend
 	// malformed and odd expressions for the parser
-	exprs := []string{"", "a", "a/b", "a;b", "a/(b;c)", "(a;b)c", "a;(b;c)", "a/b/c/(x;y)", "a/b/c/d/(x;y)/z", "(a;b)", "a//b", "a;", ";a", "a(b", "a)b", "((a;b)c;d)e", "()", "a/()", "(;)", "a(;)b", ")", "(", "a;;b", "/", "(a)(b)(c;d)", "a/(b/(c;d);e)f"}
+	exprs := []string{"", "a", "a/b", "a;b", "a/(b;c)", "(a;b)c", "a;(b;c)", "a/b/c/(x;y)", "a/b/c/d/(x;y)/z", "(a;b)", "a//b", "a;", ";a", "a(b", "a)b", "((a;b)c;d)e", "()", "a/()", "(;)", "a(;)b", ")", "(", "a;;b", "/", "(a)(b)(c;d)", "a/(b/(c;d);e)f", "(a;b)(x)", "(a;b;c)(x;y)", "(a;b)(x;y;z)", "(a;b)(c;d)(e)", "(a;b;c)(d)(e;f)", "a(b;c;d)(e;f)g", "(a;b)c(d;e;f)"}
 	for i := 0; i < c.N(200, 5000); i++ {
 		n := rng.Intn(9)
 		var b strings.Builder
